@@ -5,11 +5,45 @@ import z3
 from . import mirparse
 from .mirparse import Place, Operand, Const, Rvalue, Stmt, Term, scan_balanced, split_top
 from .values import *
-from .explore import Inconclusive, PathEnd, Panic
+from .explore import Inconclusive, PathEnd, Panic, Ambient
 
 
 class EncoderGap(Inconclusive):
     pass
+
+
+# ---------------------------------------------------------------------------
+# ambient state: everything a format call could observe besides its arguments (C17)
+
+_INTERIOR = re.compile(r'\b(Atomic(?:[A-Z][A-Za-z0-9]*)?|Mutex|RwLock|RefCell|Cell|UnsafeCell|OnceLock|OnceCell|LazyLock|LazyCell|Once|LocalKey|LazyStorage|Condvar|Barrier)\b')
+_AMBIENT_CALLS = [
+    ('thread-local', re.compile(r'\bLocalKey::<')),
+    ('clock', re.compile(r'\b(Instant|SystemTime)::now\b|\bUNIX_EPOCH\b')),
+    ('environment', re.compile(r'\benv::(var|var_os|vars|vars_os|args|args_os|current_dir|current_exe|temp_dir|home_dir)\b')),
+    ('thread-identity', re.compile(r'\bthread::current\b|\bThreadId\b|\bprocess::id\b|\bavailable_parallelism\b')),
+    ('random', re.compile(r'\bRandomState::new\b|\bgetrandom\b|\brand::|\bthread_rng\b|\bfastrand\b|\bDefaultHasher::new\b')),
+    ('lazy-static', re.compile(r'<(std::sync::)?(LazyLock|Lazy)<.*> as (std::ops::)?Deref>::deref')),
+]
+_HASH_ITER = re.compile(r'\b(HashMap|HashSet)::<(.*)>::(iter|iter_mut|keys|values|values_mut|into_keys|into_values|drain|retain|extract_if)\b'
+                        r'|<&?(mut )?(std::collections::)?(hash_map::|hash_set::)?(HashMap|HashSet)<(.*)> as (std::iter::)?IntoIterator>::into_iter')
+
+
+def ambient_of(func):
+    """classify a foreign call that reads or writes state outside the call's arguments"""
+    for kind, rx in _AMBIENT_CALLS:
+        if rx.search(func):
+            return kind
+    m = _HASH_ITER.search(func)
+    if m and 'FxBuildHasher' not in func and 'BuildHasherDefault' not in func:
+        return 'hash-order'
+    return None
+
+
+def gap_or_ambient(func, what='foreign call'):
+    k = ambient_of(func)
+    if k:
+        return Ambient(k, func[:200])
+    return EncoderGap('no contract for %s `%s`' % (what, func))
 
 
 # ---------------------------------------------------------------------------
@@ -359,11 +393,17 @@ class Machine:
         self.used_fns = {}        # name -> sha
         self.used_contracts = {}  # key -> count
         self.depth = 0
+        self.stack = []
         self.trace = None
         self.generic_stack = []     # instantiations of type parameters of the generic functions being executed
         self._pty = self.defs.pty_cache
 
     # -- memory -------------------------------------------------------------
+    stack = None
+    ambient_label = None     # set by the C17 session: Ambient at the outermost call becomes an obligation
+    case = None              # harness: what is being executed (source text, ...) for the report
+    case_model = None        # harness: model -> dict (configuration of the counterexample)
+
     def load(self, ref):
         if not isinstance(ref, Ref):
             return ref
@@ -574,12 +614,21 @@ class Machine:
         return v
 
     def eval_const_path(self, frame, text, dest_ty):
+        ms = re.match(r'^\{alloc\d+: (.*)\}$', text)
+        if ms:
+            # reference to a static item.  A static that can change (interior mutability, lazily initialised, `static mut`) is state that
+            # outlives the call.
+            if _INTERIOR.search(ms.group(1)) or ms.group(1).startswith(('*mut', '&mut')):
+                raise Ambient('static', ms.group(1)[:160])
+            raise EncoderGap('reference to static allocation %s' % text[:120])
         h = self.contracts.const_path(self, text, dest_ty)
         if h is not None:
             return h
         # in-crate named const
         for name, cf in getattr(frame.fn, 'module', self.module).consts.items():
             if name == text or name.endswith('::' + text) or text.endswith('::' + name):
+                if _INTERIOR.search(getattr(cf, 'ret_ty', '') or '') or cf.header.startswith('static mut'):
+                    raise Ambient('thread-local' if 'LocalKey' in cf.ret_ty else 'static', '%s: %s' % (name, cf.ret_ty[:120]))
                 return self.eval_const_body(cf)
         # unit variant / unit struct used as const
         segs = [s for s in split_path(text) if not s.startswith('<')]
@@ -912,6 +961,8 @@ class Machine:
             return self.contracts.float_cast(self, v, self.operand_ty(frame.fn, op), ty, kind)
         if kind in ('Transmute', 'PtrToPtr'):
             return v
+        if kind.startswith('PointerExposeProvenance') or kind.startswith('PointerExposeAddress'):
+            raise Ambient('address', 'pointer converted to an integer (%s)' % ty)
         raise EncoderGap('cast kind %s' % kind)
 
     # -- execution ---------------------------------------------------------------
@@ -930,9 +981,20 @@ class Machine:
         self.depth += 1
         if self.depth > self.max_depth:
             raise EncoderGap('recursion depth (unbounded recursion?) at %s' % fn.name)
+        self.stack.append(fn.name)
         try:
             return self.run_blocks(fr)
+        except Ambient as a:
+            if self.depth == 1 and self.ambient_label:
+                # C17: reaching state outside the call's arguments is the violation candidate of this path
+                info = dict(self.case or {}, ambient=a.kind, detail=a.detail, reached_in=getattr(a, 'where', None))
+                self.ctx.must_hold(False, '%s:%s' % (self.ambient_label, a.kind), lambda mdl, info=info: dict(info, **(self.case_model(mdl) if self.case_model else {})))
+                raise PathEnd()
+            if not hasattr(a, 'where'):
+                a.where = list(self.stack[-4:])
+            raise
         finally:
+            self.stack.pop()
             self.depth -= 1
 
     def run_blocks(self, fr):
@@ -1133,7 +1195,7 @@ class Machine:
                         if fn is not None:
                             break
                     if fn is None:
-                        raise EncoderGap('no contract for foreign call `%s`' % func)
+                        raise gap_or_ambient(func)
             cached = defs.cache[func] = (fn, c, getattr(ci, 'key', None))
         fn, c, key = cached
         if fn is not None:
@@ -1149,7 +1211,7 @@ class Machine:
         # the cache stores the resolution (key); the contract itself comes from this machine's table (harness-local forks)
         c = self.contracts.table.get(key, c)
         if c is None:
-            raise EncoderGap('no contract for foreign call `%s`' % func)
+            raise gap_or_ambient(func)
         ci.key = key
         self.used_contracts[c.__name__] = self.used_contracts.get(c.__name__, 0) + 1
         try:
@@ -1194,7 +1256,7 @@ class Machine:
                     return Agg(e, segs[-1], list(args))
             c = self.contracts.lookup(ci)
             if c is None:
-                raise EncoderGap('no contract for fn item `%s`' % fv.path)
+                raise gap_or_ambient(fv.path, 'fn item')
             return c(self, list(args), ci)
         raise EncoderGap('call of non-callable %r' % (fv,))
 
